@@ -555,6 +555,8 @@ def run_check(prop, tier, replay=None, label=None):
         if prop in ("C03", "C04") and replay is None:
             drift += retry_phase(run, prop, tier, workdir, binary, rng)
         if prop == "C09" and replay is None:
+            scan_fault_phase(run, tier, workdir, binary)
+        if prop == "C09" and replay is None:
             # C09 also quantifies over unsatisfiable injection points and over loader / Init / runner faults:
             # the same property operators, on the resolution pipeline (Resolve.tla) and on App.Run (App.tla)
             import check_resolve, check_app, resolve_lib as rl, app_lib as al
@@ -601,6 +603,36 @@ def run_check(prop, tier, replay=None, label=None):
         return run.finish()
     finally:
         vlib.rm(workdir)
+
+
+def scan_fault_phase(run, tier, workdir, binary):
+    """C09: a definition scanner (DefinitionRegistryPostProcessor) that reports an error for one or SEVERAL components of the same
+    start: Run returns an error - it neither succeeds nor hangs (the scanning phase joins its goroutines).  The starts are the
+    gated scan scenarios of the C20 check (failing scanners fail at the same moment); TraceScan.tla judges the outcome."""
+    sd = os.path.join(workdir, "scanfault")
+    os.makedirs(sd)
+    vlib.stage_specs(sd, ["TraceScan.tla"])
+    recs = []
+    for n, k in [(3, 1), (4, 2), (5, 3), (6, 6), (3, 0)] * (1 if tier == "quick" else 6):
+        json.dump(dict(kind="scan", n=n, failing=k, iter=0), open(os.path.join(sd, "sc.json"), "w"))
+        p = vlib.run_harness(binary, ["race", "-in", "sc.json"], cwd=sd, timeout=120)
+        if p.returncode != 0:
+            raise vlib.Infra("scan harness failed: " + p.stderr[-800:])
+        rec = json.loads(p.stdout.strip().splitlines()[-1])
+        recs.append(dict({kk: v for kk, v in rec.items() if kk not in ("report", "inflight")}, race=False, report="", incoherent=0, hung=bool(rec.get("hung", False))))
+    vlib.write_ndjson(os.path.join(sd, "sf.ndjson"), recs)
+    r = el.tlc_trace(sd, "TraceScan", os.path.join(sd, "sf.ndjson"), {}, ["C20_Outcome"], [], "sf", spec="MonitorSpec")
+    run.cov["states"] += r.distinct
+    run.cov["traces_validated_against_impl"] += len(recs)
+    if not r.ok:
+        if r.kind != "invariant":
+            raise vlib.Infra("TraceScan (scanner faults): " + r.error_text[:500])
+        k = el._last_state_no(r.out)
+        bad = recs[k - 2] if k and k >= 2 else recs[-1]
+        run.violation("a start with %s failing definition scanner(s) of %s: Run %s" % (bad["failing"], bad["n"], "did not return" if bad.get("hung") else "returned ok=%s" % bad.get("ok")),
+                      dict(family="scanfault", record=bad))
+    for rec in recs:
+        run.count_case({kk: rec[kk] for kk in ("kind", "n", "failing")}, True)
 
 
 def retry_phase(run, prop, tier, workdir, binary, rng):
